@@ -105,6 +105,9 @@ def gen_case(streams, tier):
         for _ in range(f.randint(1, 2)):
             faults.append({'kind': 'storage_poke', 'at': f.randrange(len(tape)),
                            'addr': _addr(f, cfg), 'value': gen.rand_val(f, cfg['bw'])})
+    cfg['default'] = 0
+    if not rom and not covering and set(labels) <= {'sim', 'fast'} and g.random() < 0.4:
+        cfg['default'] = g.choice([1, 1, mask(cfg['bw'])])
     case = {'prop': ID, 'cfg': cfg, 'labels': labels, 'tape': tape, 'faults': faults,
             'covering': covering, 'sched': world.gen_sched(streams)}
     case['interleave'] = replica.gen_interleaving(streams['sched'], labels, len(tape),
@@ -234,7 +237,7 @@ class Model(object):
         out = {}
         for r in range(self.cfg['R']):
             a = cyc['ra%d' % r]
-            out['rd%d' % r] = self.rom(a) if self.rom else self.mem.get(a, 0)
+            out['rd%d' % r] = self.rom(a) if self.rom else self.mem.get(a, self.cfg.get('default', 0))
         variant = self.cfg.get('variant', 'plain')
         if variant == 'registered':
             src = self.prev          # the port registers hold last cycle's inputs (0 at reset)
@@ -297,7 +300,8 @@ def run(case, res):
     blk, mem = build(cfg)
     world.common.iter_seam.install(sched.get('iter_policy'), sched.get('iter_seed', 0))
     init = {'regs': {}, 'mems': ({} if cfg['rom'] or not cfg['init'] else {'m': dict(cfg['init'])}),
-            'default': 0}
+            'default': cfg.get('default', 0)}
+    dv0 = cfg.get('default', 0)
     reps = []
     tags0 = []
     if cfg['aw'] > 64:
@@ -397,14 +401,14 @@ def run(case, res):
                 addrs |= set(got.keys())
             for a in sorted(addrs):
                 try:
-                    gv = got[a] if r.label == 'compiled' else got.get(a, 0)
+                    gv = got[a] if r.label == 'compiled' else got.get(a, dv0)
                 except Exception as e:
                     return Violation('memory_equal', 'inspect_mem_raises',
                                      {'replica': r.label, 'addr': a, 'exc': repr(e)[:200]},
                                      [r.label] + tags0)
-                if gv != model.mem.get(a, 0):
+                if gv != model.mem.get(a, dv0):
                     return Violation('memory_equal', 'content_mismatch',
-                                     {'replica': r.label, 'addr': a, 'expected': model.mem.get(a, 0),
+                                     {'replica': r.label, 'addr': a, 'expected': model.mem.get(a, dv0),
                                       'got': gv}, [r.label] + tags0)
             res.probes.hit('final_words_checked', len(addrs))
     for r in reps:
